@@ -90,10 +90,10 @@ type c19World struct {
 	included []transactions.SignedTxn // members of good groups accepted into the current block
 	leases   []transactions.Transaction
 	// model of the box application's boxes: contents = what the last SUCCESSFUL group wrote (a new box is 24 zero bytes)
-	boxes     map[string]*c19Box
-	boxNames  []string        // creation order (determinism)
-	boxInUse  map[string]bool // a box is touched by at most one member of a group, so the model needs no intra-group order
-	touched   []string        // existing boxes touched by the group being built
+	boxes    map[string]*c19Box
+	boxNames []string        // creation order (determinism)
+	boxInUse map[string]bool // a box is touched by at most one member of a group, so the model needs no intra-group order
+	touched  []string        // existing boxes touched by the group being built
 }
 
 type c19Box struct {
@@ -370,6 +370,7 @@ func c19Kinds() []c19Kind {
 
 // c19FailingGroup builds a group of n members failing (at the latest) at position pos for the given reason.
 func (w *c19World) failingGroup(k c19Kind, n, pos int) []transactions.SignedTxn {
+	w.beginGroup()
 	txns := make([]transactions.Transaction, n)
 	if k.name == "duplicate-of-earlier-txn" && n > 1 && pos == 0 {
 		pos = 1
@@ -428,6 +429,7 @@ func (w *c19World) failingGroup(k c19Kind, n, pos int) []transactions.SignedTxn 
 }
 
 func (w *c19World) goodGroup(n int) []transactions.SignedTxn {
+	w.beginGroup()
 	txns := make([]transactions.Transaction, n)
 	for i := range txns {
 		txns[i] = w.goodMember()
@@ -469,7 +471,7 @@ func c19Pos(n, pos int) string {
 func TestVerifC19Atomic(t *testing.T) {
 	c := kit.Start(t, "C19", "atomic")
 	defer c.Finish()
-	c.Rule("per case a ledger (Future / v41 / v40) with funded accounts, an asset (holders, a frozen holder, a non-holder), a rekeyed account, an account at its minimum balance and four applications (global counter that can reject / err / loop, boxes, inner payment + inner application call chain); per block evaluator A receives ~40 groups: good groups of 1..16 members and, between them, failing groups of 1..16 members where the member at the first / a middle / the last position fails for one of 23 reasons (authorizer after rekey, wrong AuthAddr, overspend, min-balance dip, asset not opted in, frozen, program rejects, err, budget, inner failure deep in a call chain after inner payments succeeded, inner fee shortfall, box without reference, box larger than the reference budget, lease clash, duplicate, malformed, expired, pooled fee one microalgo short, zero / inconsistent / incomplete / absent group id, tracer panics before the commit point); twin B receives only the good groups; distinct = (protocol, reason, position) of failing groups that really failed")
+	c.Rule("per case a ledger (Future / v41 / v40) with funded accounts, an asset (holders, a frozen holder, a non-holder), a rekeyed account, an account at its minimum balance and four applications (global counter that can reject / err / loop, boxes, inner payment + inner application call chain); per block evaluator A receives ~40 groups: good groups of 1..16 members and, between them, failing groups of 1..16 members where the member at the first / a middle / the last position fails for one of 25 reasons (authorizer after rekey, wrong AuthAddr, overspend, min-balance dip, asset not opted in, frozen, program rejects, err, budget, inner failure deep in a call chain after inner payments succeeded, inner fee shortfall, box without reference, box larger than the reference budget, in-place rewrite (box_put of the same size / box_replace / box_splice) of a box from the ledger or from earlier in the block followed by err in the same call or by a failing later member, lease clash, duplicate, malformed, expired, pooled fee one microalgo short, zero / inconsistent / incomplete / absent group id, tracer panics before the commit point); twin B receives only the good groups; distinct = (protocol, reason, position) of failing groups that really failed")
 	c.Assume("the fingerprint covers the BlockEvaluator and its pending roundCowState reachable by reflection, except the read caches of roundCowBase, the ledger handle, tracer and constant protocol parameters")
 	cvs := []protocol.ConsensusVersion{protocol.ConsensusFuture, protocol.ConsensusV41, protocol.ConsensusV40}
 	ncases := c.N(8, 220)
@@ -482,6 +484,15 @@ func TestVerifC19Atomic(t *testing.T) {
 	c.Require("twin_blocks_compared", int64(c.N(20, 600)))
 	c.Require("corrupted_state_guard_checked", int64(c.N(4, 100)))
 	c.Require("replayed_members_after_failed_group", int64(c.N(10, 200)))
+	c.Require("failing_group_touches_ledger_box", int64(c.N(40, 1000)))
+	c.Require("failing_group_touches_same_block_box", int64(c.N(40, 1000)))
+	c.Require("ledger_kv_checked_across_failed_group", int64(c.N(40, 1000)))
+	c.Require("box_overwrites_committed", int64(c.N(100, 2500)))
+	c.Require("kv_delta_entries_checked", int64(c.N(100, 2500)))
+	for _, op := range []string{"put", "replace", "splice"} {
+		c.Require("box_overwrites_generated:"+op, int64(c.N(50, 1200)))
+		c.Require("box_overwrites_generated:"+op+"fail", int64(c.N(4, 100)))
+	}
 	for _, k := range c19Kinds() {
 		c.Require("failed:"+k.name, 3)
 	}
@@ -492,7 +503,7 @@ func c19Case(c *kit.Ctx, t testing.TB, ci int, cv protocol.ConsensusVersion) {
 	u := cevNewUniverse(c, t, r, cv, ci%4 == 3)
 	defer u.close()
 	kinds := c19Kinds()
-	w := &c19World{cevUniverse: u, c: c, r: r}
+	w := &c19World{cevUniverse: u, c: c, r: r, boxes: map[string]*c19Box{}}
 	nblocks := r.Range(3, 5)
 	kindCursor := ci * 5
 	for bi := 0; bi < nblocks && c.Violations() < 20; bi++ {
@@ -539,6 +550,7 @@ func c19Case(c *kit.Ctx, t testing.TB, ci int, cv protocol.ConsensusVersion) {
 				return false
 			}
 			c.Count("good_groups_accepted", 1)
+			w.applyModel(g)
 			for _, s := range g {
 				w.included = append(w.included, s)
 				if s.Txn.Lease != ([32]byte{}) {
@@ -565,6 +577,12 @@ func c19Case(c *kit.Ctx, t testing.TB, ci int, cv protocol.ConsensusVersion) {
 			k := kinds[kindCursor%len(kinds)]
 			n := r.Range(1, 16)
 			pos := []int{0, n / 2, n - 1}[r.Intn(3)]
+			if k.name == "box-overwrite-then-later-member-fails" {
+				n = max(n, 2)
+				if pos == 0 {
+					pos = 1 + r.Intn(n-1)
+				}
+			}
 			var g []transactions.SignedTxn
 			var tracer *c19Tracer
 			if k.name == "tracer-panic-before-commit" {
@@ -578,6 +596,16 @@ func c19Case(c *kit.Ctx, t testing.TB, ci int, cv protocol.ConsensusVersion) {
 			}
 			if fpPrev == "" {
 				fpPrev, descPrev = fp()
+			}
+			// ledger contents of the committed boxes this group touches (the ledger must not change without a block)
+			touched := append([]string(nil), w.touched...)
+			kvBefore := map[string][]byte{}
+			for _, name := range touched {
+				if w.boxes[name].committed {
+					if v, ok := w.ledgerBox(name); ok {
+						kvBefore[name] = v
+					}
+				}
 			}
 			sizeBefore, ctrBefore := evA.PaySetSize(), evA.TestingTxnCounter()
 			var err, terr error
@@ -613,6 +641,7 @@ func c19Case(c *kit.Ctx, t testing.TB, ci int, cv protocol.ConsensusVersion) {
 					c.Violation("twin-diverged", map[string]any{"case": caseID, "what": "the twin rejects a group that evaluator A accepted", "error_B": errB.Error(), "history": history})
 					return
 				}
+				w.applyModel(g)
 				for _, s := range g {
 					w.included = append(w.included, s)
 				}
@@ -626,6 +655,28 @@ func c19Case(c *kit.Ctx, t testing.TB, ci int, cv protocol.ConsensusVersion) {
 					"payset_size_before_after": []int{sizeBefore, evA.PaySetSize()}, "txn_counter_before_after": []uint64{ctrBefore, evA.TestingTxnCounter()},
 					"fingerprint_diff": c19Diff(descPrev, descAfter), "group": fmt.Sprintf("%x", protocol.EncodeReflect(g)), "history": history})
 				return
+			}
+			for _, name := range touched {
+				before, had := kvBefore[name]
+				if !had {
+					continue
+				}
+				after, _ := w.ledgerBox(name)
+				c.Eval(1)
+				if !bytes.Equal(before, after) {
+					c.Violation("ledger-kv-changed-by-failed-group", map[string]any{"case": caseID, "step": step, "reason": k.name, "size": n, "failing_position": pos, "error": c19Trunc(err.Error()),
+						"box": name, "ledger_before": fmt.Sprintf("%x", before), "ledger_after_failed_group": fmt.Sprintf("%x", after), "what": "Ledger.LookupKv(latest) changed although no block was added",
+						"group": fmt.Sprintf("%x", protocol.EncodeReflect(g)), "history": history})
+					return
+				}
+				c.Count("ledger_kv_checked_across_failed_group", 1)
+			}
+			for _, name := range touched {
+				if w.boxes[name].committed {
+					c.Count("failing_group_touches_ledger_box", 1)
+				} else {
+					c.Count("failing_group_touches_same_block_box", 1)
+				}
 			}
 			var ep ledgercore.EvalPanicError
 			if errors.As(err, &ep) && tracer == nil {
@@ -699,11 +750,34 @@ func c19Case(c *kit.Ctx, t testing.TB, ci int, cv protocol.ConsensusVersion) {
 			return
 		}
 		c.Count("twin_blocks_compared", 1)
+		// kv contents: what the block writes for a known box must be what the last successful group wrote
+		for _, name := range w.boxNames {
+			if mod, ok := deltaA.KvMods[w.boxKey(name)]; ok {
+				c.Eval(1)
+				if !bytes.Equal(mod.Data, w.boxes[name].val) {
+					c.Violation("kv-delta-differs-from-successful-writes", map[string]any{"case": caseID, "box": name, "delta_data": fmt.Sprintf("%x", mod.Data),
+						"last_successful_write": fmt.Sprintf("%x", w.boxes[name].val), "history": history})
+					return
+				}
+				c.Count("kv_delta_entries_checked", 1)
+			}
+		}
 		vb, err := u.validate(blkA, false)
 		if err != nil {
 			c.Harness("C19: block of evaluator A rejected: %v", err)
 		}
 		u.add(vb)
+		for _, name := range w.boxNames {
+			got, ok := w.ledgerBox(name)
+			c.Eval(1)
+			if !ok || !bytes.Equal(got, w.boxes[name].val) {
+				c.Violation("ledger-kv-differs-from-successful-writes", map[string]any{"case": caseID, "box": name, "ledger": fmt.Sprintf("%x", got), "exists": ok,
+					"last_successful_write": fmt.Sprintf("%x", w.boxes[name].val), "history": history})
+				return
+			}
+			w.boxes[name].committed = true
+		}
+		c.Count("ledger_kv_matches_model_after_block", 1)
 		if ci == 0 && bi == 0 {
 			c.Sample(map[string]any{"protocol": string(cv), "block_txns": len(blkA.Payset), "history_tail": history[max(0, len(history)-6):]})
 		}
